@@ -237,6 +237,9 @@ class C10(Prop):
                         {'kind': 'out', 'prev': 1}], 'ticks': 6}
         # the in-place list-append with two consumers (the function must run once per key and interval)
         st_ext = dict(st, nodes=[dict(n, upd='extend') if n['kind'] == 'state' else n for n in st['nodes']])
+        # a window over the running states of an in-place list-append: what was emitted in an earlier interval must not change
+        st_win = dict(st, nodes=[{'kind': 'src', 'q': 0}, {'kind': 'state', 'prev': 0, 'upd': 'extend'}, {'kind': 'window', 'prev': 1, 'w': 2, 's': 1},
+                                 {'kind': 'out', 'prev': 2}, {'kind': 'out', 'prev': 1}])
         allq = dict(diamond, sources=[{'queue': [[1, 2], [3], [4]], 'oneAtATime': False, 'default': [7]}])
         files = [{'kind': 'files', 'pre': ['a.txt'], 'between': ['b.txt'], 'ticks': [[], ['c.txt', 'd.txt'], []], 'process_all': pa}
                  for pa in (False, True)]
@@ -248,7 +251,7 @@ class C10(Prop):
                    'latedir': True} for pa in (False, True) for sp in ('dir', 'file://dir')]
         rddq = [dict(diamond, sources=[{'queue': [[1, 2], [], [3]], 'oneAtATime': o, 'default': dflt, 'asRdd': True}])
                 for o in (True, False) for dflt in (None, [7])]
-        return [diamond, win, st, st_ext, allq] + rddq + cbw + (files if self.focus == 'C10' else [])
+        return [diamond, win, st, st_ext, st_win, allq] + rddq + cbw + (files if self.focus == 'C10' else [])
 
     def nontrivial(self, case):
         if case.get('kind') == 'files':
